@@ -120,6 +120,11 @@ theorem popEvent_frame (st : IState σ) :
     · split <;> exact ⟨rfl, rfl, rfl, rfl, rfl⟩
     · exact ⟨rfl, rfl, rfl, rfl, rfl⟩
 
+/-- `f` touches neither the step time, the listeners, the event queues nor the list of sent events -/
+def QFrameFn (f : IState σ → IState σ) : Prop :=
+  ∀ st, (f st).time = st.time ∧ (f st).listeners = st.listeners ∧ (f st).intQ = st.intQ ∧
+    (f st).extQ = st.extQ ∧ (f st).sentEvents = st.sentEvents
+
 /-- what a relation must satisfy on the primitive steps -/
 structure Respects (R : RS σ ω → RS σ ω → Prop) : Prop where
   pre : PreOrd R
@@ -134,7 +139,7 @@ structure Respects (R : RS σ ω → RS σ ω → Prop) : Prop where
 /-- evaluation of contract conditions respects any relation that the primitive steps
     (including the logging of a condition's evaluation) respect -/
 theorem contract_of_prims {R : RS σ ω → RS σ ω → Prop} (hpre : PreOrd R)
-    (hmod : ∀ f : IState σ → IState σ, FrameFn f → Rel R (M.modify f : M σ ω Unit))
+    (hmod : ∀ f : IState σ → IState σ, QFrameFn f → Rel R (M.modify f : M σ ω Unit))
     (hemit : ∀ (k : CondKind) (o : ObjId) (i : Nat) (e : Option Event) (r : Option Bool),
       Rel R (M.emit (.cond k o i e r) : M σ ω Unit))
     (kind : CondKind) (obj : Obj) (ev : Option Event) : Rel R (evalContract env kind obj ev) := by
@@ -156,29 +161,35 @@ theorem contract_of_prims {R : RS σ ω → RS σ ω → Prop} (hpre : PreOrd R)
   · exact Rel.pure hpre _
   · apply Rel.bind hpre
     · split
-      · apply hmod; intro st; exact ⟨rfl, rfl⟩
+      · apply hmod; intro st; exact ⟨rfl, rfl, rfl, rfl, rfl⟩
       · exact Rel.pure hpre _
     · intro _; exact hconds _ _
 
-/-- `f` touches neither the step time, the listeners nor the event queues -/
-def QFrameFn (f : IState σ → IState σ) : Prop :=
-  ∀ st, (f st).time = st.time ∧ (f st).listeners = st.listeners ∧ (f st).intQ = st.intQ ∧ (f st).extQ = st.extQ
+/-- one round of the loop `for event in sent_events: self._raise_event(event); self._sent_events.append(event)` -/
+def sendOne (ev : Sent) : M σ ω Unit :=
+  M.bind (raiseSent env ev) (fun _ =>
+    M.modify (fun st => { st with sentEvents := st.sentEvents ++ [ev] }))
 
-/-- the finer interface: the two places where the interpreter itself touches its queues
-    (`_raise_event` of an internal event, `_select_event(consume=True)`) are primitive steps of
-    their own, and every other assignment provably leaves the queues alone -/
-structure RespectsQ (R : RS σ ω → RS σ ω → Prop) : Prop where
+/-- `_select_event(consume=True)` followed by the `event consumed` meta-event -/
+def consumeOne : M σ ω Unit :=
+  M.bind (M.get : M σ ω (IState σ)) (fun st =>
+    M.bind (M.modify (fun st' => (popEvent st').2)) (fun _ =>
+      raiseMeta env { name := "event consumed", data := [("event", optEventVal (popEvent st).1)] }))
+
+/-- the finer interface: sending one event is a primitive step of its own, and every other
+    assignment (but the consumption of the selected event, see `RespectsQ`) provably leaves the
+    queues and the list of sent events alone -/
+structure RespectsS (R : RS σ ω → RS σ ω → Prop) : Prop where
   pre : PreOrd R
   modify : ∀ f : IState σ → IState σ, QFrameFn f → Rel R (M.modify f : M σ ω Unit)
   emit : ∀ e : Effect, e.isPlain = true → Rel R (M.emit e : M σ ω Unit)
   raise : ∀ m : Event, Rel R (raiseMeta env m)
   contract : ∀ (kind : CondKind) (obj : Obj) (ev : Option Event), Rel R (evalContract env kind obj ev)
-  /-- queueing an event on this interpreter -/
-  queue : ∀ (i : Bool) (e : Event), Rel R (queueEvent (σ := σ) (ω := ω) i e)
-  /-- consuming the selected event and announcing it -/
-  consume : Rel R (M.bind (M.get : M σ ω (IState σ)) (fun st =>
-    M.bind (M.modify (fun st' => (popEvent st').2)) (fun _ =>
-      raiseMeta env { name := "event consumed", data := [("event", optEventVal (popEvent st).1)] })))
+  send : ∀ ev : Sent, Rel R (sendOne env ev)
+
+/-- … and so is consuming the selected event and announcing it -/
+structure RespectsQ (R : RS σ ω → RS σ ω → Prop) : Prop extends RespectsS env R where
+  consume : Rel R (consumeOne env)
 
 theorem queueEvent_frame (i : Bool) (e : Event) :
     FrameFn (fun (st : IState σ) =>
@@ -196,31 +207,29 @@ theorem Respects.toQ {R : RS σ ω → RS σ ω → Prop} (H : Respects env R) :
   emit := H.emit
   raise := H.raise
   contract := H.contract
-  queue i e := by
-    unfold queueEvent
-    exact H.modify _ (queueEvent_frame i e)
+  send ev := by
+    unfold sendOne
+    apply Rel.bind H.pre
+    · cases ev with
+      | notify m => exact H.raise m
+      | internal e =>
+        unfold raiseSent
+        apply Rel.bind H.pre (by unfold queueEvent; exact H.modify _ (queueEvent_frame true e)); intro _
+        apply Rel.bind H.pre (H.raise _); intro _
+        split
+        · exact H.raise _
+        · exact Rel.pure H.pre _
+    · intro _; apply H.modify; intro st; exact ⟨rfl, rfl⟩
   consume := by
+    unfold consumeOne
     apply Rel.bind H.pre (Rel.get H.pre); intro st
     apply Rel.bind H.pre (by apply H.modify; intro st'; exact ⟨(popEvent_frame st').1, (popEvent_frame st').2.1⟩)
     intro _; exact H.raise _
 
 section Generic
 variable {env}
-variable {R : RS σ ω → RS σ ω → Prop} (H : RespectsQ env R)
+variable {R : RS σ ω → RS σ ω → Prop} (H : RespectsS env R)
 include H
-
-theorem rel_queueEvent (i : Bool) (e : Event) : Rel R (queueEvent (σ := σ) (ω := ω) i e) := H.queue i e
-
-theorem rel_raiseSent (s : Sent) : Rel R (raiseSent env s) := by
-  cases s with
-  | notify m => exact H.raise m
-  | internal e =>
-    unfold raiseSent
-    apply Rel.bind H.pre (rel_queueEvent H _ _); intro _
-    apply Rel.bind H.pre (H.raise _); intro _
-    split
-    · exact H.raise _
-    · exact Rel.pure H.pre _
 
 theorem rel_stateObj (n : Name) : Rel R (stateObj env n) := by
   unfold stateObj
@@ -239,7 +248,7 @@ theorem rel_stateObjs : ∀ ns : List Name, Rel R (stateObjs env ns)
 theorem rel_runCode (k : ExecKind) (ev : Option Event) : Rel R (runCode env k ev) := by
   unfold runCode
   apply Rel.bind H.pre (Rel.get H.pre); intro st
-  apply Rel.bind H.pre (by apply H.modify; intro st; exact ⟨rfl, rfl, rfl, rfl⟩); intro _
+  apply Rel.bind H.pre (by apply H.modify; intro st; exact ⟨rfl, rfl, rfl, rfl, rfl⟩); intro _
   split
   · exact Rel.pure H.pre _
   · exact Rel.throw H.pre _
@@ -251,7 +260,7 @@ theorem rel_saveMemory (cfg0 : List Name) (s : StateDef) : ∀ chs : List Name, 
     split
     · exact Rel.throw H.pre _
     · exact rel_saveMemory cfg0 s rest
-    · apply Rel.bind H.pre (by apply H.modify; intro st; exact ⟨rfl, rfl, rfl, rfl⟩)
+    · apply Rel.bind H.pre (by apply H.modify; intro st; exact ⟨rfl, rfl, rfl, rfl, rfl⟩)
       intro _; exact rel_saveMemory cfg0 s rest
 
 theorem rel_exitState (cfg0 : List Name) (step : Micro) (s : StateDef) : Rel R (exitState env cfg0 step s) := by
@@ -269,7 +278,7 @@ theorem rel_exitState (cfg0 : List Name) (step : Micro) (s : StateDef) : Rel R (
     · exact Rel.throw H.pre _
     · exact Rel.pure H.pre _
   intro _
-  apply Rel.bind H.pre (by apply H.modify; intro st; exact ⟨rfl, rfl, rfl, rfl⟩); intro _
+  apply Rel.bind H.pre (by apply H.modify; intro st; exact ⟨rfl, rfl, rfl, rfl, rfl⟩); intro _
   apply Rel.bind H.pre (H.contract _ _ _); intro _
   apply Rel.bind H.pre (H.raise _); intro _
   exact Rel.pure H.pre _
@@ -279,7 +288,7 @@ theorem rel_enterState (step : Micro) (s : StateDef) : Rel R (enterState env ste
   apply Rel.bind H.pre (H.contract _ _ _); intro _
   apply Rel.bind H.pre (H.emit _ rfl); intro _
   apply Rel.bind H.pre (rel_runCode H _ _); intro sent
-  apply Rel.bind H.pre (by apply H.modify; intro st; exact ⟨rfl, rfl, rfl, rfl⟩); intro _
+  apply Rel.bind H.pre (by apply H.modify; intro st; exact ⟨rfl, rfl, rfl, rfl, rfl⟩); intro _
   apply Rel.bind H.pre (H.raise _); intro _
   exact Rel.pure H.pre _
 
@@ -291,7 +300,7 @@ theorem rel_fireTransition (step : Micro) (t : Trans) : Rel R (fireTransition en
   apply Rel.bind H.pre (rel_runCode H _ _); intro sent
   apply Rel.bind H.pre (H.contract _ _ _); intro _
   apply Rel.bind H.pre (H.contract _ _ _); intro _
-  apply Rel.bind H.pre (by apply H.modify; intro st; exact ⟨rfl, rfl, rfl, rfl⟩); intro _
+  apply Rel.bind H.pre (by apply H.modify; intro st; exact ⟨rfl, rfl, rfl, rfl, rfl⟩); intro _
   apply Rel.bind H.pre (H.raise _); intro _
   exact Rel.pure H.pre _
 
@@ -308,8 +317,7 @@ theorem rel_raiseAll (sent : List Sent) : Rel R (raiseAll env sent) := by
   unfold raiseAll
   apply Rel.forEach H.pre
   intro ev
-  apply Rel.bind H.pre (rel_raiseSent H ev); intro _
-  (apply H.modify; intro st; exact ⟨rfl, rfl, rfl, rfl⟩)
+  exact H.send ev
 
 theorem rel_applyStep (step : Micro) : Rel R (applyStep env step) := by
   unfold applyStep
@@ -359,7 +367,7 @@ theorem rel_computeSteps : Rel R (computeSteps env) := by
   unfold computeSteps
   apply Rel.bind H.pre (Rel.get H.pre); intro st
   split
-  · apply Rel.bind H.pre (by apply H.modify; intro st; exact ⟨rfl, rfl, rfl, rfl⟩)
+  · apply Rel.bind H.pre (by apply H.modify; intro st; exact ⟨rfl, rfl, rfl, rfl, rfl⟩)
     intro _; exact Rel.pure H.pre _
   · simp only
     apply Rel.bind H.pre (rel_logGuards H _ _ _); intro _
@@ -384,6 +392,13 @@ theorem rel_finishStep (ms : Option MacroStep) : Rel R (finishStep env ms) := by
   apply Rel.bind H.pre (H.raise _); intro _
   exact Rel.pure H.pre _
 
+end Generic
+
+section GenericQ
+variable {env}
+variable {R : RS σ ω → RS σ ω → Prop} (H : RespectsQ env R)
+include H
+
 theorem rel_runSteps (computed : List Micro) : Rel R (runSteps env computed) := by
   unfold runSteps
   split
@@ -393,7 +408,7 @@ theorem rel_runSteps (computed : List Micro) : Rel R (runSteps env computed) := 
       · exact H.consume
       · exact Rel.pure H.pre _
     intro _
-    apply Rel.bind H.pre (rel_applyAll H _); intro executed
+    apply Rel.bind H.pre (rel_applyAll H.toRespectsS _); intro executed
     apply Rel.bind H.pre (Rel.get H.pre); intro st
     exact Rel.pure H.pre _
 
@@ -403,11 +418,11 @@ theorem rel_executeOnce_tail (clock : Int) :
       M.bind (computeSteps env) (fun computed =>
       M.bind (runSteps env computed) (fun ms => finishStep env ms)))) := by
   apply Rel.bind H.pre (H.raise _); intro _
-  apply Rel.bind H.pre (rel_computeSteps H); intro computed
+  apply Rel.bind H.pre (rel_computeSteps H.toRespectsS); intro computed
   apply Rel.bind H.pre (rel_runSteps H computed); intro ms
-  exact rel_finishStep H ms
+  exact rel_finishStep H.toRespectsS ms
 
-end Generic
+end GenericQ
 
 /-! ### instance: step time, listeners, log growth -/
 
@@ -416,12 +431,12 @@ theorem RT_respects : Respects env (RT : RS σ ω → RS σ ω → Prop) where
   modify f hf := rt_modify f hf
   emit e _ := rt_emit e
   raise m := rt_raiseMeta env m
-  contract := contract_of_prims env RT_pre (fun f hf => rt_modify f hf) (fun _ _ _ _ _ => rt_emit _)
+  contract := contract_of_prims env RT_pre (fun f hf => rt_modify f (fun st => ⟨(hf st).1, (hf st).2.1⟩)) (fun _ _ _ _ _ => rt_emit _)
 
-theorem rt_computeSteps : Rel RT (computeSteps env) := rel_computeSteps (RT_respects env).toQ
+theorem rt_computeSteps : Rel RT (computeSteps env) := rel_computeSteps (RT_respects env).toQ.toRespectsS
 theorem rt_runSteps (computed : List Micro) : Rel RT (runSteps env computed) := rel_runSteps (RT_respects env).toQ computed
-theorem rt_finishStep (ms : Option MacroStep) : Rel RT (finishStep env ms) := rel_finishStep (RT_respects env).toQ ms
-theorem rt_applyStep (step : Micro) : Rel RT (applyStep env step) := rel_applyStep (RT_respects env).toQ step
+theorem rt_finishStep (ms : Option MacroStep) : Rel RT (finishStep env ms) := rel_finishStep (RT_respects env).toQ.toRespectsS ms
+theorem rt_applyStep (step : Micro) : Rel RT (applyStep env step) := rel_applyStep (RT_respects env).toQ.toRespectsS step
 
 /-- **The step time is the clock value sampled at the call, whatever happens** (normal return or
     exception), and the effect log is only extended. -/
